@@ -1,8 +1,9 @@
 ----------------------------- MODULE Trace_Policy -----------------------------
 (***************************************************************************)
-(* C18: policy transformations against truth tables (PolicyAtoms.tla).     *)
+(* C18: policy transformations against truth tables (PolicyAtoms.tla) and  *)
+(* the normalisation algorithm model (Normalize.tla).                      *)
 (***************************************************************************)
-EXTENDS PolicyAtoms, Json, IOUtils
+EXTENDS Normalize, Json, IOUtils
 
 ASSUME TLCSet(1, ndJsonDeserialize(IOEnv.TRACE))
 Rec == TLCGet(1)
@@ -24,6 +25,9 @@ JudgeSem(ev) ==
       /\ \A nm \in {"normalized", "sorted"} :
            /\ (~Panicked(ev[nm]) \/ Report("C11", "policy_panic", ev, nm))
            /\ (Panicked(ev[nm]) \/ SameTable(P, ev[nm].pol) \/ Report("C18", nm \o "_changes_truth_table", ev, ev[nm].pol))
+      \* L2: the exact output of the algorithm model (Normalize.tla, proved table-preserving by MC_Normalize)
+      /\ (Panicked(ev.normalized) \/ ev.normalized.pol = Norm(P)
+          \/ Report("INFO", "drift_l2_normalize", ev, <<ev.normalized.pol, Norm(P)>>))
       /\ (ev.n_keys = NKeys(P) \/ Report("C18", "n_keys", ev, <<ev.n_keys, NKeys(P)>>))
       /\ (IF SatisfiableA(P)
           THEN ev.min_keys = MinKeys(P) \/ Report("C18", "minimum_n_keys", ev, <<ev.min_keys, MinKeys(P)>>)
